@@ -171,8 +171,14 @@ F2 = [("add", T(["S", i, "4", "*"])) for i in ("a", "e1", "g1", "o1", "u1")] + \
     ("add", T(["G", "*", "c+", "e1+", "1", "*"])), ("add", T(["G", "*", "g1+", "c-", "1", "*"])),
     ("add", T(["E", "*", "c+", "e1-", "0", "1", "0", "1", "*"])),
     ("add", T(["E", "*", "o1+", "c-", "0", "1", "0", "1", "*"])),
+    # ... whose FIRST side is an identifier so far only mentioned by a group
+    ("add", T(["E", "*", "a+", "o1-", "0", "1", "0", "1", "*"])),
+    ("add", T(["G", "*", "b-", "o1+", "1", "*"])),
     ("add", T(["F", "e1", "q+", "0", "1", "0", "1", "*"])), ("add", T(["F", "u1", "q+", "0", "1", "0", "1", "*"])),
 ]
+F1 = F1 + [("add", T(["P", "z", "A+,B+,p+", "*"])), ("add", T(["P", "z", "B-,A-,r+", "*"])),
+           ("add", T(["P", "z", "A+,C+,x-", "*"])), ("add", T(["L", "C", "+", "p", "+", "*"])),
+           ("add", T(["C", "B", "+", "r", "-", "0", "*"]))]
 U1 = universe.G1_CORE + [T(["H", "TS:i:1"]), T(["H", "xx:i:1"]),
                          T(["L", "B", "+", "C", "+", "*", "ID:Z:x"])]
 U2 = universe.G2_CORE + [T(["H", "TS:i:1"]), T(["H", "xx:i:1"]), T(["U", "u3", "a", "xx:i:1"]),
